@@ -66,15 +66,15 @@ func vxCheckError(err error) {
 	vx.Assert("C13.location_nonneg", se.Location.Line >= 0 && se.Location.Column >= 0)
 }
 
-func VxSoup_Start2()   { vxSoup("", VxHostileTable, 2) }
-func VxSoup_Where2()   { vxSoup("SELECT a FROM t WHERE", VxHostileTable, 2) }
-func VxSoup_Select2()  { vxSoup("SELECT", VxHostileTable, 2) }
-func VxSoup_From2()    { vxSoup("SELECT a FROM", VxHostileTable, 2) }
-func VxSoup_Start3()   { vxSoup("", VxHostileTable, 3) }
-func VxSoup_Start4()   { vxSoup("", VxHostileTable, 4) }
-func VxSoup_Where3()   { vxSoup("SELECT a FROM t WHERE", VxHostileTable, 3) }
-func VxSoup_Where4()   { vxSoup("SELECT a FROM t WHERE", VxHostileTable, 4) }
-func VxSoup_Select3()  { vxSoup("SELECT", VxHostileTable, 3) }
-func VxSoup_Select4()  { vxSoup("SELECT", VxHostileTable, 4) }
-func VxSoup_From3()    { vxSoup("SELECT a FROM", VxHostileTable, 3) }
-func VxSoup_From4()    { vxSoup("SELECT a FROM", VxHostileTable, 4) }
+func VxSoup_Start2()  { vxSoup("", VxHostileTable, 2) }
+func VxSoup_Where2()  { vxSoup("SELECT a FROM t WHERE", VxHostileTable, 2) }
+func VxSoup_Select2() { vxSoup("SELECT", VxHostileTable, 2) }
+func VxSoup_From2()   { vxSoup("SELECT a FROM", VxHostileTable, 2) }
+func VxSoup_Start3()  { vxSoup("", VxHostileTable, 3) }
+func VxSoup_Start4()  { vxSoup("", VxHostileTable, 4) }
+func VxSoup_Where3()  { vxSoup("SELECT a FROM t WHERE", VxHostileTable, 3) }
+func VxSoup_Where4()  { vxSoup("SELECT a FROM t WHERE", VxHostileTable, 4) }
+func VxSoup_Select3() { vxSoup("SELECT", VxHostileTable, 3) }
+func VxSoup_Select4() { vxSoup("SELECT", VxHostileTable, 4) }
+func VxSoup_From3()   { vxSoup("SELECT a FROM", VxHostileTable, 3) }
+func VxSoup_From4()   { vxSoup("SELECT a FROM", VxHostileTable, 4) }
